@@ -6,7 +6,9 @@ import Sentinel.Model.Isolation
     ops:  `load <res:threshold>*`
           `entry <id> <res> <batch>`            => `pass` | `block iso <rule-index> <triggered-value>` | `dup`
           `exit <id> [err]`, `dexit <id>` (two concurrent Exit calls), `trace <id>` (no-op), `entry … type=<t>` (same as without),
-          `entry <id> <res> -` (no batch option = batch 1), `manyres <n>` (enter+exit n fresh rule-less resources: no-op)
+          `entry <id> <res> -` (no batch option = batch 1), `manyres <n>` (enter+exit n fresh rule-less resources: no-op),
+          `loadres <res> <thr>*` / `clearres <res>` (LoadRulesOfResource / ClearRulesOfResource), `clock <ms>` (offset from the case start,
+          may step backwards: no-op of both machines)
           `conc <res>`                          => gauge
           `sched <id0> <res> <b0,b1,…> <i0,i1,…|->`  => `[r0,…] max=<g>`   (r = `-` idle, `p` in flight, `x` exited, `b<idx>:<tv>` blocked)
           `par <id0> <k> <res> <batch>`         = `sched id0 res b,…,b 0,…,k-1,0,…,k-1`
@@ -42,6 +44,10 @@ def resType (s : String) : Bool :=
 
 def parse : List String → Option Op
   | "load" :: rs => (rs.mapM rule?).map .load
+  | "loadres" :: res :: ths =>          -- isolation.LoadRulesOfResource(res, rules with these thresholds)
+      if res = "" ∨ res.startsWith "#" then none else (ths.mapM u32?).map (.loadres res)
+  | ["clearres", res] =>                -- isolation.ClearRulesOfResource(res), also for a resource without rules
+      if res = "" ∨ res.startsWith "#" then none else some (.loadres res [])
   | ["entry", id, res, b] => do some (.entry (← id.toNat?) res (← batch? b))
   | ["entry", id, res, b, ty] =>     -- the gauge belongs to the resource NAME, whatever the resource type of the entry
       if resType ty then do some (.entry (← id.toNat?) res (← batch? b)) else none
@@ -81,6 +87,10 @@ def showOut : Out → Option String
 /-- `trace <id>` (api.TraceError) never touches rules, gauges or handles: a no-op of both machines -/
 def isTrace : List String → Bool
   | ["trace", id] => id.toNat?.isSome
+  | ["clock", ms] =>        -- the virtual clock moves (possibly backwards): the accounting does not depend on time at all
+      match ms.toNat? with
+      | some ms => ms ≤ 20000
+      | none => false
   | ["manyres", n] =>       -- enter and exit `n` fresh rule-less resources `#…`: nothing is in flight afterwards, no other gauge moves
       match n.toNat? with
       | some n => n ≤ 100000
